@@ -87,13 +87,13 @@ class Result(object):
     def ev(self, kind, n=1):
         self.events[kind] = self.events.get(kind, 0) + n
 
-    def violate(self, key, msg, **witness):
+    def violate(self, _vkey, _msg, **witness):
         # one entry per key per case is enough; keep the first witness
         for v in self.violations:
-            if v["key"] == key:
+            if v["key"] == _vkey:
                 v["count"] = v.get("count", 1) + 1
                 return
-        self.violations.append(dict(key=key, msg=msg, witness=jsafe(witness)))
+        self.violations.append(dict(key=_vkey, msg=_msg, witness=jsafe(witness)))
 
     def to_json(self):
         return dict(violations=self.violations, obligations=self.obligations, reach=self.reach, sig=self.sig,
